@@ -88,3 +88,133 @@ func shrinkOperands(root *gen.Node, fails func(*gen.Node) bool, budget int) *gen
 	}
 	return cur
 }
+
+// shrinkStmt reduces a failing statement: drop LIMIT / ORDER BY, drop select
+// fields that nothing refers to, simplify WHERE, simplify field expressions.
+func shrinkStmt(s *gen.Stmt, fails func(*gen.Stmt) bool, budget int) *gen.Stmt {
+	cur := *s
+	cur.Fields = append([]gen.Field(nil), s.Fields...)
+	try := func(cand gen.Stmt) bool {
+		if budget <= 0 {
+			return false
+		}
+		budget--
+		if fails(&cand) {
+			cur = cand
+			return true
+		}
+		return false
+	}
+	if cur.HasLim {
+		c := cur
+		c.HasLim = false
+		try(c)
+	}
+	if len(cur.OrderBy) > 0 {
+		c := cur
+		c.OrderBy = nil
+		try(c)
+	}
+	for len(cur.OrderBy) > 1 {
+		c := cur
+		c.OrderBy = cur.OrderBy[:len(cur.OrderBy)-1]
+		if !try(c) {
+			break
+		}
+	}
+	// WHERE -> true, or a smaller sub-tree
+	if cur.Where != nil && cur.Kind != "put" && cur.Kind != "remove" {
+		c := cur
+		c.Where = gen.Bool(true)
+		if !try(c) {
+			w := shrinkBool(cur.Where, func(p *gen.Node) bool {
+				c := cur
+				c.Where = p
+				return fails(&c)
+			}, budget/3)
+			budget -= budget / 3
+			c := cur
+			c.Where = w
+			cur = c
+		}
+	}
+	// drop fields not referenced by name
+	referenced := func(name string) bool {
+		if name == "" {
+			return false
+		}
+		for _, g := range cur.GroupBy {
+			if g == name {
+				return true
+			}
+		}
+		for _, o := range cur.OrderBy {
+			if o.Name == name {
+				return true
+			}
+		}
+		used := false
+		chk := func(n *gen.Node) {
+			if n == nil {
+				return
+			}
+			n.Walk(func(x *gen.Node) {
+				if x.K == gen.KRef && x.Op == name {
+					used = true
+				}
+			})
+		}
+		chk(cur.Where)
+		for _, f := range cur.Fields {
+			chk(f.E)
+		}
+		return used
+	}
+	for i := len(cur.Fields) - 1; i >= 0 && len(cur.Fields) > 1; i-- {
+		f := cur.Fields[i]
+		if referenced(f.Alias) || (f.Alias == "" && (f.E.K == gen.KKey || f.E.K == gen.KValue) && len(cur.OrderBy) > 0) {
+			continue
+		}
+		c := cur
+		c.Fields = append(append([]gen.Field(nil), cur.Fields[:i]...), cur.Fields[i+1:]...)
+		try(c)
+	}
+	// simplify field expressions
+	for i := range cur.Fields {
+		if budget <= 0 {
+			break
+		}
+		fi := i
+		wrap := &gen.Node{K: gen.KCall, Op: "_", T: cur.Fields[fi].E.T, A: []*gen.Node{cur.Fields[fi].E}}
+		sm := shrinkOperands(wrap, func(w *gen.Node) bool {
+			c := cur
+			c.Fields = append([]gen.Field(nil), cur.Fields...)
+			c.Fields[fi].E = w.A[0]
+			return fails(&c)
+		}, 8)
+		budget -= 8
+		cur.Fields = append([]gen.Field(nil), cur.Fields...)
+		cur.Fields[fi].E = sm.A[0]
+	}
+	// pairs / keys of write statements
+	for len(cur.Pairs) > 1 {
+		c := cur
+		c.Pairs = cur.Pairs[:len(cur.Pairs)-1]
+		if !try(c) {
+			c2 := cur
+			c2.Pairs = cur.Pairs[1:]
+			if !try(c2) {
+				break
+			}
+		}
+	}
+	for len(cur.Keys) > 1 {
+		c := cur
+		c.Keys = cur.Keys[:len(cur.Keys)-1]
+		if !try(c) {
+			break
+		}
+	}
+	out := cur
+	return &out
+}
